@@ -107,6 +107,11 @@ pub struct Case {
     /// bystanders whose names are the pattern with something that merely looks like an index: 007, +3, 03, "3 ", 0x3 ...
     #[serde(default)]
     pub lookalikes: bool,
+    /// the roller is given the pattern as a RELATIVE path (the process's working directory is `cwd-a` below the case
+    /// directory); with Some(k) the process changes its working directory to `cwd-b` before roll k: a relative name
+    /// means what it means where the process is when the name is used
+    #[serde(default)]
+    pub relative: Option<Option<u8>>,
 }
 
 /// `\xHH` escapes in a generated name stand for raw bytes (file names that are not valid UTF-8)
@@ -158,9 +163,9 @@ pub fn strategy() -> impl Strategy<Value = Case> {
         prop::collection::vec((any::<u16>(), content()), 0..=3),
         prop::collection::vec(content(), 1..=10),
         any::<u16>(),
-        (prop::bool::weighted(0.2), prop::option::weighted(0.08, (any::<u64>(), 70_000u32..400_000)), prop::bool::weighted(0.3), prop_oneof![3 => Just(vec![]), 1 => prop::collection::vec(1u8..8, 1..=2)], prop::option::weighted(0.3, 1u8..6), prop::bool::weighted(0.2), prop::option::weighted(0.1, 33u32..=70), prop::bool::weighted(0.3)),
+        (prop::bool::weighted(0.2), prop::option::weighted(0.08, (any::<u64>(), 70_000u32..400_000)), prop::bool::weighted(0.3), prop_oneof![3 => Just(vec![]), 1 => prop::collection::vec(1u8..8, 1..=2)], prop::option::weighted(0.3, 1u8..6), prop::bool::weighted(0.2), prop::option::weighted(0.1, 33u32..=70), prop::bool::weighted(0.3), prop::option::weighted(0.15, prop::option::weighted(0.6, 1u8..6))),
     )
-        .prop_map(|(delete_roller, count, base_kind, pat, init_kind, init, by, rolls, act, (cross_device, big, leftovers, wipe_before, env_switch_before, active_symlink, wide, lookalikes))| {
+        .prop_map(|(delete_roller, count, base_kind, pat, init_kind, init, by, rolls, act, (cross_device, big, leftovers, wipe_before, env_switch_before, active_symlink, wide, lookalikes, relative))| {
             let count = wide.unwrap_or(count);
             let base: u32 = match base_kind {
                 0 => 0,
@@ -230,6 +235,7 @@ pub fn strategy() -> impl Strategy<Value = Case> {
                 active_symlink,
                 wide,
                 lookalikes,
+                relative,
             }
         })
 }
@@ -245,6 +251,7 @@ pub fn check(tmp: &Path, case: &Case, obs: &mut Obs) -> CaseResult {
     let dir = scratch(tmp, "c07");
     std::env::set_var("LV_SET", "envdir");
     let r = check_in(&dir, case, obs);
+    let _ = std::env::set_current_dir("/");
     std::env::set_var("LV_SET", "envdir");
     if case.cross_device {
         if let Some(a) = other_fs_dir(&dir) {
@@ -256,8 +263,24 @@ pub fn check(tmp: &Path, case: &Case, obs: &mut Obs) -> CaseResult {
 }
 
 fn check_in(dir: &Path, case: &Case, obs: &mut Obs) -> CaseResult {
-    let pattern_abs = format!("{}/{}", dir.display(), case.pattern);
-    let name = |off: i64| -> String { archive_name(&case.pattern, (case.base as i64 + off) as u64) };
+    // (a pattern that leaves the working directory through a link is kept absolute)
+    let relative = case.relative.is_some() && !case.pattern.contains("linkdir") && !case.delete_roller;
+    let cwd_prefix = std::cell::Cell::new("");
+    if relative {
+        std::fs::create_dir_all(dir.join("cwd-a")).unwrap();
+        std::fs::create_dir_all(dir.join("cwd-b")).unwrap();
+        std::env::set_current_dir(dir.join("cwd-a")).unwrap();
+        cwd_prefix.set("cwd-a");
+    }
+    let pattern_abs = if relative { case.pattern.clone() } else { format!("{}/{}", dir.display(), case.pattern) };
+    let name = |off: i64| -> String {
+        let n = archive_name(&case.pattern, (case.base as i64 + off) as u64);
+        if cwd_prefix.get().is_empty() {
+            n
+        } else {
+            format!("{}/{}", cwd_prefix.get(), n)
+        }
+    };
     let c = case.count as i64;
     if case.pattern.contains("linkdir") {
         std::fs::create_dir_all(dir.join("elsewhere/deep")).unwrap();
@@ -338,7 +361,14 @@ fn check_in(dir: &Path, case: &Case, obs: &mut Obs) -> CaseResult {
             exact = true;
             switched = true;
         }
-        if case.wipe_before.contains(&(ri as u8)) && !case.delete_roller && !case.pattern.contains("linkdir") {
+        if relative && case.relative.flatten().map(|k| k as usize % case.rolls.len()) == Some(ri) && ri > 0 {
+            std::env::set_current_dir(dir.join("cwd-b")).unwrap();
+            cwd_prefix.set("cwd-b");
+            // nothing exists under the names the pattern leads to from here
+            exact = true;
+            obs.class("working-directory-changes-between-rolls");
+        }
+        if case.wipe_before.contains(&(ri as u8)) && !case.delete_roller && !case.pattern.contains("linkdir") && !relative {
             // the top-level directory of every archive name that lives in a sub-directory goes away
             let mut gone = false;
             for o in 0..c {
@@ -486,6 +516,7 @@ fn check_in(dir: &Path, case: &Case, obs: &mut Obs) -> CaseResult {
     obs.class_if(case.leftovers && alt.is_none() && !case.delete_roller, "temp-file-look-alikes-present");
     obs.class_if(alt.is_some(), "rolled-file-on-another-filesystem");
     obs.class_if(case.pattern.contains("/../"), "pattern-with-dot-dot-after-a-link-or-variable");
+    obs.class_if(relative, "relative-pattern");
     obs.class_if(case.active_symlink, "rolled-file-is-a-symbolic-link");
     obs.class_if(case.wide.is_some(), "window-of-33-to-70");
     obs.class_if(case.lookalikes, "index-look-alike-bystanders");
@@ -543,7 +574,7 @@ pub fn run(run: &Run) {
         // one roller through 400 successive rolls (more than any 8-bit bookkeeping can count)
         for (count, pattern) in [(3u32, "a.{}.log"), (5, "arch/{}/a.log.gz")] {
             let rolls: Vec<Vec<u8>> = (0..400u32).map(|i| format!("roll {}\n", i).into_bytes()).collect();
-            run.eval_one("rolls", &Case { delete_roller: false, base: 1, count, pattern: pattern.to_string(), initial: vec![], bystanders: vec![("other.txt".into(), b"keep".to_vec())], bystander_dirs: vec![], active: "active.log".into(), rolls, cross_device: false, big: None, leftovers: false, wipe_before: vec![120, 250], env_switch_before: None, active_symlink: false, wide: None, lookalikes: false }, &f);
+            run.eval_one("rolls", &Case { delete_roller: false, base: 1, count, pattern: pattern.to_string(), initial: vec![], bystanders: vec![("other.txt".into(), b"keep".to_vec())], bystander_dirs: vec![], active: "active.log".into(), rolls, cross_device: false, big: None, leftovers: false, wipe_before: vec![120, 250], env_switch_before: None, active_symlink: false, wide: None, lookalikes: false, relative: None }, &f);
         }
     }
     run.note(format!("build: {}", if cfg!(feature = "bg") { "background_rotation" } else { "foreground rotation" }));
